@@ -70,6 +70,10 @@ func audienceNode(v string) *Node {
 // Authn is the AuthnStatement.
 type Authn struct {
 	SessionIndex, AuthnInstant, SessionNotOnOrAfter, ClassRef *string
+	// DeclRef adds an AuthnContextDeclRef (the schema allows an AuthnContext holding it instead of, or next to, a
+	// class reference); EmptyContext writes an AuthnContext without children when neither reference is set.
+	DeclRef      *string
+	EmptyContext bool
 }
 
 // Assertion is the semantic record of one assertion.
@@ -229,8 +233,15 @@ func (a *Assertion) Node() *Node {
 	}
 	if a.Authn != nil {
 		as := El(NSA, "AuthnStatement").AOpt("AuthnInstant", a.Authn.AuthnInstant).AOpt("SessionIndex", a.Authn.SessionIndex).AOpt("SessionNotOnOrAfter", a.Authn.SessionNotOnOrAfter)
-		if a.Authn.ClassRef != nil {
-			as.Add(El(NSA, "AuthnContext", El(NSA, "AuthnContextClassRef").T(*a.Authn.ClassRef)))
+		if a.Authn.ClassRef != nil || a.Authn.DeclRef != nil || a.Authn.EmptyContext {
+			ac := El(NSA, "AuthnContext")
+			if a.Authn.ClassRef != nil {
+				ac.Add(El(NSA, "AuthnContextClassRef").T(*a.Authn.ClassRef))
+			}
+			if a.Authn.DeclRef != nil {
+				ac.Add(El(NSA, "AuthnContextDeclRef").T(*a.Authn.DeclRef))
+			}
+			as.Add(ac)
 		}
 		n.Add(as)
 	}
